@@ -14,6 +14,7 @@ ASSUME = [
     'L-TIME every emitted transition = some input transition time + one of that line\'s delays (=> static-timing window by induction over the op list); '
     'L-SHIFT product run on t and t+delta (delta symbolic); L-SCALE product runs with factors 2 and 1/2; L-MONO with polarity-independent delays and strictly increasing inputs',
     'exact real arithmetic models float32 on the dyadic grid of the statement (float lemmas F1-F3 of C03); every path replayed on float32 arrays with a grid model',
+    'capture lemma (shared with C13): s[4] / s[5] are the earliest / latest transition of the waveform whatever lies behind its terminator',
     'end-to-end: static-timing windows (min-plus / max-plus over the annotated netlist, built as z3 terms) for every line and for s[4], s[5] on small circuits via the public API',
     'bounds: K per input by arity, capacities {4, 8, 16}; shifts |delta| <= 500; non-power-of-two scaling outside the claim',
 ]
@@ -41,6 +42,10 @@ def run(tier, seed):
     rep = common.pmap(wave.kernel_job, J, chunksize=1)
     rep.merge(common.pmap(wsim.e2e_job, wsim.e2e_jobs(tier, seed, {'STA'}, light=True), chunksize=1))
     rep.merge(common.pmap(wsim.glue_job, wsim.glue_jobs(tier, seed), chunksize=4))          # schedule / memory-map obligations the induction relies on
+    # earliest arrival / latest stabilisation are how the window is observed at outputs: the capture lemma of C13 (real c_to_s on an arbitrary
+    # waveform with arbitrary left-overs of earlier propagations behind its terminator, CPU and GPU)
+    from checks import c13
+    rep.merge(common.pmap(c13.capture_job, c13.capture_jobs(tier), chunksize=1))
     # reachability twin: MONO must fail when delays are allowed to depend on polarity (known: polarity-dependent delays can reorder)
     tw = wave.kernel_job(('XOR2', (2, 2), (0, 0), 16, None, False, frozenset({'WF', 'TWINMONO'})))
     if not tw.counts['twin_refuted']: rep.error('reachability twin failed: monotonicity without the polarity-independence assumption was not refuted')
@@ -59,5 +64,8 @@ def run(tier, seed):
 
 def replay(data):
     if data.get('mode') in ('boundary', 'e2e', 'glue'): return wsim.replay(data)
+    if data.get('mode') == 'capture':
+        from checks import c13
+        return c13.replay_capture(data)
     prob = wave.concrete_lemma(data)
     return bool(prob), str(prob)
